@@ -309,3 +309,7 @@ func DatagramsRead() int { return 0 }
 
 // UDPSocketClosed is the number of Close calls on the stub UDP socket.
 func UDPSocketClosed() int { return 0 }
+
+// RegisterConn makes the next net.Dial of the code under test return c
+// (engine only: the environment's socket is the harness's in-memory connection).
+func RegisterConn(c interface{}) {}
